@@ -2,7 +2,7 @@
   Verilog engine — proof side, part 60 (module parameters): the parameters of a definition are untouched by the
   declaration phases, the assigns and the instances (frame lemmas for the pure builders).
 -/
-import Spydr.Verilog.RoundTripAsgC
+import Spydr.Verilog.RoundTripAsgB
 set_option maxHeartbeats 1600000
 namespace Spydr.Verilog.Elab
 open Spydr.Verilog
